@@ -79,7 +79,7 @@ WF_P = {
 WF_R = {
     'R1': ("all(implies(e in self._entities and t in self._entities[e] and has_events(t), "
            "wref(self._entities[e][t]) in self._handlers) for e in Ent for t in Type)", 'prop'),
-    'R2': ("wref(self) in self._handlers", 'prop'),
+    'R2': ("wref(self) in self._handlers and alive(self)", 'prop'),
 }
 
 
@@ -115,7 +115,8 @@ def declare(spec):
         if isinstance(dec, _ast.Call) and getattr(dec.func, 'id', '') == 'event_handler':
             for kw in dec.keywords:
                 if isinstance(kw.value, _ast.Constant):
-                    Wk.invariant('R3', "ev_has(typeof(self), '%s') and ev_get(typeof(self), '%s') == '%s'"
+                    Wk.invariant('R3', "has_events(typeof(self)) and ev_has(typeof(self), '%s') and "
+                                 "ev_get(typeof(self), '%s') == '%s'"
                                  % (kw.arg, kw.arg, kw.value.value), 'aux')
                     Wk.groups['R'].append('R3')
     spec.klass(None, 'Ent')
@@ -126,6 +127,8 @@ def declare(spec):
                     fields={'world': World, 'priority': TInt,
                             '__events__': ClassLevel(T.events_of)})
     Tk = spec.klass(None, 'Type')
+    T.declare_class_of('Proc', 'desper.logic.world.Processor')
+    T.declare_class_of('World', 'desper.logic.world.World')
 
     def subclasses(X, obj, node):
         def fn(X, args, kw, node):
@@ -143,17 +146,9 @@ def declare(spec):
     d('ec', lambda X, e, c: ZV(EC.make([e, c])))
 
     def index_in(X, lst, x):
-        """Some position of x in the list, if it occurs (definitional Skolem term)."""
+        """Some position of x in the list, if it occurs (prelude.idxof)."""
         lst = deref(lst)
-        k = z3.Int(X.fresh_name('index_in'))
-        i = z3.Int('i_idx')
-        xt = lst.E.to_leaves(x)
-        hit = z3.And(*[a[i] == l for a, l in zip(lst.ats, xt)])
-        hitk = z3.And(*[a[k] == l for a, l in zip(lst.ats, xt)])
-        X.assume(forall([i], z3.Implies(z3.And(0 <= i, i < lst.n, hit),
-                                        z3.And(0 <= k, k < lst.n, hitk)),
-                        patterns=[lst.ats[0][i]]))
-        return ZV(k)
+        return ZV(prelude.idxof(lst, lst.E.to_leaves(x)))
     d('index_in', index_in)
 
     def filter_map(which):
@@ -207,9 +202,17 @@ def declare(spec):
             r = X.fresh(Ent, 'auto_id')
             X.events.append(('next_id', r))
             X.named_ghosts['auto_id'] = r
+            X.assume(r.t != none_of(Ent.sort))
+            if getattr(X, 'assume_fresh_ids', False):
+                spec.note_assumption('World.create_entity (main contract): the id generator yields '
+                                     'an identifier that owns no components (the other case is D02, '
+                                     'checked by create_entity#auto-id)')
+                ents = deref(X.read_field(deref(X.entry_env['self']).t, '_entities'))
+                X.assume(z3.Not(ents.dom[r.t]))
             return r
         X.unsupported('next(%r)' % (v,), node)
     spec.next_hook = next_hook
+    spec.spec_names['auto_id'] = ZV(z3.Const('auto_id_not_drawn', Ent.sort))
 
 
 def tt(X, v):
@@ -474,7 +477,7 @@ def register_mutators(spec):
                         'all(implies(e in self._entities and t in self._entities[e] and '
                         'self._entities[e][t] == component, e == entity) '
                         'for e in Ent for t in Type)'],
-      modifies=['self._components', 'self._entities'] + DISP_STATE,
+      modifies=['self._components', 'self._entities', 'self._dead_entities'] + DISP_STATE,
       ensures=ens, raises={'$OtherException': {'from-callback-only': 'True'}})
 
 
@@ -692,7 +695,8 @@ def register_processors(spec):
                      'dst': ('expr', 'filter_dst(self._sorted_processors)',
                              TScalar(z3.ArraySort(z3.IntSort(), z3.IntSort())))},
       ensures=ens,
-      raises={'AssertionError': {'not-a-processor-type': 'True'},
+      raises={'AssertionError': {'not-a-processor-type': 'not desc(Processor, processor_type)',
+                                 'unchanged': 'unchanged_except(self, "")'},
               '$OtherException': {'from-callback-only': found, 'wf': ("wf(self)", 'prop')}})
     walk_loop(spec, W + 'remove_processor', 0, 'processor_type', 'S in self._processors',
               extra={'nothing-removed-yet': 'unchanged_except(self, "")',
@@ -775,3 +779,321 @@ _register2 = register
 def register(spec):     # noqa: F811
     _register2(spec)
     register_processors(spec)
+
+
+def register_get(spec):
+    """get/_get: each attached component whose type descends from the queried type is
+    yielded exactly once (ghost counter `ycnt` over the yielded pairs)."""
+    C = spec.contract
+    P = dict(self=World)
+    YT = TScalar(z3.ArraySort(EC.sort, z3.IntSort()))
+
+    spec.ghost_decls['ycnt'] = YT
+
+    def ycnt_arr(X):
+        if 'ycnt' not in X.ghost:
+            spec.havoc_ghost(X, 'ycnt')
+        v = X.ghost['ycnt']
+        return v.t if isinstance(v, ZV) else v
+    spec.define('ycnt', lambda X, p: ZV(ycnt_arr(X)[deref(p).t]))
+    fresh_gen = 'all(ycnt(x) == 0 for x in EC)'      # a generator that has yielded nothing yet
+
+    def yield_hook(X, v):
+        """`yield e, c` in World._get: one more occurrence of the pair."""
+        t = EC.make(deref(v).items)
+        a = ycnt_arr(X)
+        X.ghost['ycnt'] = ZV(z3.Store(a, t, a[t] + 1))
+    spec.yield_hooks = getattr(spec, 'yield_hooks', {})
+    spec.yield_hooks['desper.logic.world.World._get'] = yield_hook
+
+    listed = ('(desc(component_type, typeof(ec_c(x))) and ec_e(x) in self._entities and '
+              'typeof(ec_c(x)) in self._entities[ec_e(x)] and '
+              'self._entities[ec_e(x)][typeof(ec_c(x))] == ec_c(x))')
+    ens = {'exactly-one-pair-per-attached-subtype-component':
+           'all(ycnt(x) == (1 if %s else 0) for x in EC)' % listed}
+    C(W + '_get', params=dict(P, component_type=TypeS), props=['C01', 'C06'],
+      requires=["wf(self, 'W')", 'component_type != None', fresh_gen], modifies=['ghost:ycnt'],
+      returns=TList(EC), ensures=ens)
+    spec.note_assumption('list(generator) holds each value exactly as often as the generator '
+                         'yields it: World.get returns the pairs counted by the ghost ycnt of World._get (T1)')
+    # outer walk: `visited` = subtypes already reported
+    def wit_init(X, env):
+        return ZV(z3.K(TypeS.sort, z3.IntVal(0)))
+
+    def wit_step(X, now, head):
+        w = deref(head['wit']).t
+        fr = deref(head['fringe'])
+        n = fr.n
+        F = fr.at(n - 1).t
+        new = z3.Const(X.fresh_name('wit'), w.sort())
+        S = z3.Const('S_w', TypeS.sort)
+        X.assume(forall([S], new[S] == z3.If(w[S] < n - 1, w[S], n - 1 + prelude.next_sub(F, S)),
+                        patterns=[new[S]]))
+        return ZV(new)
+    reported = ('(typeof(ec_c(x)) in visited and ec_e(x) in self._entities and '
+                'typeof(ec_c(x)) in self._entities[ec_e(x)] and '
+                'self._entities[ec_e(x)][typeof(ec_c(x))] == ec_c(x))')
+    spec.loop(W + '_get', 0, invariants={
+        'fringe-below-root': 'all(implies(0 <= k and k < len(fringe), desc(component_type, fringe[k]) '
+                             'and fringe[k] != None) for k in Int)',
+        'visited-below-root': 'all(implies(S in visited, desc(component_type, S)) for S in Type)',
+        'unvisited-below-fringe': 'all(implies(desc(component_type, S) and not (S in visited), '
+                                  '0 <= wit[S] and wit[S] < len(fringe) and desc(fringe[wit[S]], S)) '
+                                  'for S in Type)',
+        'reported-once': 'all(ycnt(x) == (1 if %s else 0) for x in EC)' % reported,
+    }, vars={'fringe': TList(TypeS), 'subtype': TypeS, 'visited': TSet(TypeS), 'entity': Ent},
+        ghost={'wit': (TScalar(z3.ArraySort(TypeS.sort, z3.IntSort())), wit_init, wit_step)},
+        havoc=['ghost:ycnt'])
+    inner = ('(typeof(ec_c(x)) in visited and ec_e(x) in self._entities and '
+             'typeof(ec_c(x)) in self._entities[ec_e(x)] and '
+             'self._entities[ec_e(x)][typeof(ec_c(x))] == ec_c(x) and '
+             '(typeof(ec_c(x)) != subtype or pos(ec_e(x)) < i))')
+    spec.loop(W + '_get', 1, index='i', seq='owners', invariants={
+        'reported-once': 'all(ycnt(x) == (1 if %s else 0) for x in EC)' % inner,
+        'current-visited': 'subtype in visited',
+    }, havoc=['ghost:ycnt'])
+
+    C(W + 'get', params=dict(P, component_type=TypeS), props=['C01', 'C06'],
+      requires=["wf(self, 'W')", 'component_type != None', fresh_gen], modifies=['ghost:ycnt'],
+      ensures={'lists-what-_get-yields': ens['exactly-one-pair-per-attached-subtype-component']})
+
+
+_register3 = register
+
+
+def register(spec):     # noqa: F811
+    _register3(spec)
+    register_get(spec)
+
+
+def register_clear(spec):
+    C = spec.contract
+    P = dict(self=World)
+    ALL = ['self._components', 'self._entities', 'self._dead_entities', 'self._sorted_processors',
+           'self._processors', 'self.id_generator', 'self._dispatch_enabled'] + DISP_STATE
+    HAVOC = ['self._components', 'self._entities', 'self._dead_entities', 'self._events',
+             'self._handlers', 'self._event_queue', 'self._sorted_processors', 'self._processors',
+             'ghost:log', 'ghost:cnt']
+
+    def factory_call(X, f, args, kwargs, node):
+        if f.t.sort().name() == 'Factory':
+            return X.fresh(IdGen, 'new_idgen')
+        return None
+    prev = getattr(spec, 'call_object_hook', None)
+
+    def hook(X, f, args, kwargs, node):
+        r = factory_call(X, f, args, kwargs, node)
+        if r is not None:
+            return r
+        return prev(X, f, args, kwargs, node)
+    spec.call_object_hook = hook
+
+    C(W + 'clear', params=P, props=['C01', 'C02'], requires=["wf(self)"], modifies=ALL,
+      ensures={
+          'wf': ("wf(self)", 'prop'),
+          'nothing-attached': 'all(not ' + ATT + ' for e in Ent for t in Type)',
+          'nothing-pending': 'all(not (x in self._dead_entities) for x in Ent)',
+          'no-processor-left': 'all(not (t in self._processors) for t in Type) and '
+                               'all(not (0 <= i and i < len(self._sorted_processors)) for i in Int)',
+          'world-still-listens': 'wref(self) in self._handlers',
+          'enabled-and-nothing-queued': 'self._dispatch_enabled and len(self._event_queue) == 0',
+      },
+      raises={'$OtherException': {'from-callback-only': 'True'}})
+    spec.loop(W + 'clear', 0, index='i', seq='ents', invariants={
+        'wf': 'wf(self)',
+        'rows-shrink': ('all(' + ATT + ' == (' + OLD_ATT + ' and not (pos(e) < i)) and '
+                        'implies(' + ATT + ', self._entities[e][t] == old(self._entities)[e][t]) '
+                        'for e in Ent for t in Type)'),
+        'processors-untouched': 'self._sorted_processors == old(self._sorted_processors) and '
+                                'self._processors == old(self._processors)',
+    }, havoc=HAVOC)
+    spec.loop(W + 'clear', 1, index='i', seq='procs', invariants={
+        'wf': 'wf(self)',
+        'nothing-attached': 'all(not ' + ATT + ' for e in Ent for t in Type)',
+        'nothing-pending': 'all(not (x in self._dead_entities) for x in Ent)',
+        'snapshot': 'procs == old(self._sorted_processors)',
+        'remaining-are-later': (
+            'all(implies(t in self._processors, t in old(self._processors) and '
+            'self._processors[t] == old(self._processors)[t] and '
+            'index_in(procs, old(self._processors)[t]) >= i) for t in Type)'),
+        'later-remain': (
+            'all(implies(i <= k and k < len(procs), typeof(procs[k]) in self._processors and '
+            'self._processors[typeof(procs[k])] == procs[k]) for k in Int)'),
+    }, havoc=HAVOC)
+
+
+_register4 = register
+
+
+def register(spec):     # noqa: F811
+    _register4(spec)
+    register_clear(spec)
+
+
+def register_create(spec):
+    C = spec.contract
+    P = dict(self=World)
+    CIDX = TScalar(z3.ArraySort(TypeS.sort, z3.IntSort()))
+    ID = '(entity_id0 if entity_id0 != None else auto_id)'
+
+    # well-formed arguments: pairwise different exact types (ghost cidx: type -> its
+    # position), live instances that are not attached anywhere, a new identifier
+    wellformed = [
+        "wf(self)",
+        'all(implies(0 <= j and j < len(components), cidx[typeof(components[j])] == j and '
+        'components[j] != None and alive(components[j])) for j in Int)',
+        'all(implies(' + ATT + ' and 0 <= j and j < len(components), '
+        'self._entities[e][t] != components[j]) for e in Ent for t in Type for j in Int)',
+        'entity_id == None or not (entity_id in self._entities)',
+    ]
+    mine = '(0 <= cidx[t] and cidx[t] < %s and typeof(components[cidx[t]]) == t)'
+
+    def view(n, ident):
+        return ('all((' + ATT + ') == (' + OLD_ATT + ' or (e == %s and %s)) and '
+                'implies(' + ATT + ', self._entities[e][t] == (components[cidx[t]] '
+                'if (e == %s and %s) else old(self._entities)[e][t])) for e in Ent for t in Type)'
+                ) % (ident, mine % n, ident, mine % n)
+
+    def on_add_call(c):
+        return cb_call(c, 'on_add', 'result', 'self')
+    has_add = "(has_events(typeof(%s)) and ev_has(typeof(%s), 'on_add'))"
+    ens = {
+        'wf': ("wf(self)", 'prop'),
+        'returns-the-given-id': 'implies(entity_id != None, result == entity_id)',
+        'view': view('len(components)', 'result'),
+        'pending-marks-untouched': 'self._dead_entities == old(self._dead_entities)',
+        'processors-untouched': 'self._sorted_processors == old(self._sorted_processors) and '
+                                'self._processors == old(self._processors)',
+        'handlers-registered': 'all(implies(0 <= j and j < len(components) and '
+                               'has_events(typeof(components[j])), '
+                               'wref(components[j]) in self._handlers) for j in Int)',
+        'on_add-once-each-when-enabled': (
+            'implies(old(self._dispatch_enabled), all(implies(0 <= j and j < len(components) and '
+            + (has_add % ('components[j]', 'components[j]')) + ', cnt(' + on_add_call('components[j]')
+            + ') == old(cnt(' + on_add_call('components[j]') + ')) + 1) for j in Int))'),
+        'nothing-called-when-disabled': 'implies(not old(self._dispatch_enabled), '
+                                        'all(cnt(c) == old(cnt(c)) for c in Call))',
+        'postponed-in-order': (
+            'implies(not old(self._dispatch_enabled), is_prefix(old(self._event_queue), self._event_queue) '
+            'and all(implies(0 <= j and j < len(components) and '
+            + (has_add % ('components[j]', 'components[j]')) +
+            ', len(old(self._event_queue)) <= rpos[j] and rpos[j] < len(self._event_queue) and '
+            "self._event_queue[rpos[j]] == qe('on_single_dispatch', "
+            "pack('on_add', components[j], result, self), kw_empty())) for j in Int) and "
+            'all(implies(0 <= j and j < k and k < len(components) and '
+            + (has_add % ('components[j]', 'components[j]')) + ' and '
+            + (has_add % ('components[k]', 'components[k]')) + ', rpos[j] < rpos[k]) '
+            'for j in Int for k in Int))'),
+        'flag-untouched': 'self._dispatch_enabled == old(self._dispatch_enabled)',
+    }
+    RP = TScalar(z3.ArraySort(z3.IntSort(), z3.IntSort()))
+    c = C(W + 'create_entity', params={'self': World, 'components': TList(Comp), 'entity_id': Ent,
+                                       '$cidx': CIDX},
+          props=['C01', 'C02'], requires=wellformed, returns=Ent,
+          modifies=['self._components', 'self._entities'] + DISP_STATE,
+          ghost_results={'rpos': ('named', 'rpos', RP)}, ensures=ens,
+          raises={'$OtherException': {'from-callback-only': 'True'}})
+    c.assume_fresh_ids = True
+    spec.sites['World.create_entity'] = {
+        'reenter': False, 'check_wf': True, 'wf_only': 'W,P,Disp,R2,R3'}
+    spec.note_assumption('site World.create_entity: on_add callbacks run while the later components '
+                         'of the same call are attached but not yet registered as listeners (R1 is '
+                         'not claimed at these callbacks; desper registers after attaching by design)')
+    HAVOC1 = ['self._components', 'self._entities']
+    spec.loop(W + 'create_entity', 0, index='i', seq='comps', invariants={
+        'wf-W': "wf(self, 'W')",
+        # handlers are registered in the second loop: R1 holds for the old attachments
+        'R1-old': ('all(implies(' + OLD_ATT + ' and has_events(t), '
+                   'wref(old(self._entities)[e][t]) in self._handlers) for e in Ent for t in Type)'),
+        'id': 'entity_id != None and entity_id == ' + ID + ' and not (entity_id in old(self._entities))',
+        'view': view('i', 'entity_id'),
+        'snapshot': 'comps == components',
+    }, havoc=HAVOC1, vars={'component': Comp, 'component_type': TypeS})
+
+    def rpos_init(X, env):
+        return ZV(z3.K(z3.IntSort(), z3.IntVal(0)))
+
+    def rpos_step(X, now, head):
+        # position of the relay queued for component i (if one was queued)
+        r = deref(head['rpos']).t
+        i = deref(head['i']).t
+        q0 = deref(X.read_field(deref(head['self']).t, '_event_queue'))
+        return ZV(z3.Store(r, i, q0.n - 1))
+    spec.loop(W + 'create_entity', 1, index='i', seq='comps', ghost={'rpos': (RP, rpos_init, rpos_step)},
+              invariants={
+        'wf-but-R1': "wf(self, 'W,P,Disp,R2,R3')",
+        # components i.. of the new entity are attached but not registered yet
+        'R1-partial': ('all(implies(' + ATT + ' and has_events(t) and not (e == entity_id and '
+                       + (mine % 'len(components)') + ' and cidx[t] >= i), '
+                       'wref(self._entities[e][t]) in self._handlers) for e in Ent for t in Type)'),
+        'id': 'entity_id != None and entity_id == ' + ID + ' and not (entity_id in old(self._entities))',
+        'view': view('len(components)', 'entity_id'),
+        'tables-settled': 'self._dead_entities == old(self._dead_entities) and '
+                          'self._sorted_processors == old(self._sorted_processors) and '
+                          'self._processors == old(self._processors) and '
+                          'self._dispatch_enabled == old(self._dispatch_enabled)',
+        'snapshot': 'comps == components',
+        'handlers-registered': 'all(implies(0 <= j and j < i and has_events(typeof(components[j])), '
+                               'wref(components[j]) in self._handlers) for j in Int)',
+        'on_add-once-each-when-enabled': (
+            'implies(old(self._dispatch_enabled), all(implies(0 <= j and j < i and '
+            + (has_add % ('components[j]', 'components[j]')) + ', cnt('
+            + cb_call('components[j]', 'on_add', 'entity_id', 'self') + ') == old(cnt('
+            + cb_call('components[j]', 'on_add', 'entity_id', 'self') + ')) + 1) for j in Int) and '
+            'all(implies(i <= j and j < len(components), cnt('
+            + cb_call('components[j]', 'on_add', 'entity_id', 'self') + ') == old(cnt('
+            + cb_call('components[j]', 'on_add', 'entity_id', 'self') + '))) for j in Int))'),
+        'nothing-called-when-disabled': 'implies(not old(self._dispatch_enabled), '
+                                        'all(cnt(c) == old(cnt(c)) for c in Call))',
+        'postponed-in-order': (
+            'implies(not old(self._dispatch_enabled), is_prefix(old(self._event_queue), self._event_queue) '
+            'and all(implies(0 <= j and j < i and '
+            + (has_add % ('components[j]', 'components[j]')) +
+            ', len(old(self._event_queue)) <= rpos[j] and rpos[j] < len(self._event_queue) and '
+            "self._event_queue[rpos[j]] == qe('on_single_dispatch', "
+            "pack('on_add', components[j], entity_id, self), kw_empty())) for j in Int) and "
+            'all(implies(0 <= j and j < k and k < i and '
+            + (has_add % ('components[j]', 'components[j]')) + ' and '
+            + (has_add % ('components[k]', 'components[k]')) + ', rpos[j] < rpos[k]) '
+            'for j in Int for k in Int))'),
+        'queue-untouched-when-enabled': 'implies(old(self._dispatch_enabled), '
+                                        'self._event_queue == old(self._event_queue))',
+    }, havoc=['self._events', 'self._handlers', 'self._event_queue', 'ghost:log', 'ghost:cnt'],
+        vars={'component': Comp})
+
+    # D02: the automatic identifier may name an entity that already owns components
+    C(W + 'create_entity#auto-id', params={'self': World, 'components': lambda X, n: TupV([]),
+                                           'entity_id': lambda X, n: NONE},
+      props=['C01'], requires=["wf(self)"], returns=Ent,
+      modifies=['self._components', 'self._entities'] + DISP_STATE,
+      ensures={'auto-id-fresh': 'not (result in old(self._entities))'})
+
+
+def register_create_replace(spec):
+    """D03: create_entity on an identifier that already owns a component of the same
+    exact type replaces it silently (no on_remove, the old one stays registered)."""
+    C = spec.contract
+    oldc = 'old(self._entities)[entity_id][typeof(components[0])]'
+    C(W + 'create_entity#replace',
+      params={'self': World, 'components': lambda X, n: TupV([ZV(z3.Const('p_newcomp', Comp.sort))]),
+              'entity_id': Ent},
+      props=['C02'],
+      requires=["wf(self)", 'entity_id != None and entity_id in self._entities',
+                'components[0] != None and alive(components[0])',
+                'typeof(components[0]) in self._entities[entity_id]',
+                'self._entities[entity_id][typeof(components[0])] != components[0]',
+                'has_events(typeof(components[0]))',
+                'all(implies(' + ATT + ', self._entities[e][t] != components[0]) '
+                'for e in Ent for t in Type)'],
+      returns=Ent, modifies=['self._components', 'self._entities'] + DISP_STATE,
+      ensures={'replaced-stops-listening': 'not (wref(%s) in self._handlers)' % oldc},
+      raises={'$OtherException': {'from-callback-only': 'True'}})
+
+
+_register5 = register
+
+
+def register(spec):     # noqa: F811
+    _register5(spec)
+    register_create(spec)
+    register_create_replace(spec)
